@@ -27,12 +27,14 @@ Definition prob_bits (e : entry) : Z :=
 Definition backoff_bits (e : entry) : Z :=
   if e_bo e =? 0 then (if e_ext e then 0 else 2147483648) else f32_of_units (e_bo e).
 
-(* the table of one order: Insert / FindOrInsert of the entries in table order *)
-Definition table_cells (buckets : nat) (ents : list (Z * Z)) : option (list cell) :=
+(* the table of one order: Insert / FindOrInsert of the entries in table order (throws ProbingSizeException at capacity) *)
+Definition table_of (buckets : nat) (ents : list (Z * Z)) : res table :=
   fold_left (fun acc kv => match acc with
-                           | None => None
-                           | Some c => unchecked_insert buckets (ideal_of DivMod buckets) (next_of DivMod buckets) c kv
-                           end) ents (Some (empty_cells buckets)).
+                           | Ok t => insert buckets (ideal_of DivMod buckets) (next_of DivMod buckets) t kv
+                           | other => other
+                           end) ents (Ok {| cells := empty_cells buckets; entries := 0 |}).
+Definition table_cells (buckets : nat) (ents : list (Z * Z)) : option (list cell) :=
+  match table_of buckets ents with Ok t => Some (cells t) | _ => None end.
 
 Definition order_entries (t : atable) (n : nat) : list (key * entry) := filter (fun ke => Nat.eqb (length (fst ke)) n) t.
 
